@@ -29,6 +29,11 @@ CLAIMS = {
    ref="§4 C12",
    note="Comparator idioms recognised: if a.f != b.f { return a.f < b.f } chains and cmp.Compare chains; any other idiom makes the rule report 'undecided' (fails) instead of passing.",
    technique="AST symbolic extraction of comparator/equality field chains + SSA guard-edge rules"),
+ "C04": dict(
+   text="Decides cache-key completeness as an effect-set inclusion: every runner/loader field read on the miss path is in the key, covered by a hashed field through a checked edge, or exempt with a reason in tables/c04_inputs.tsv; every PackageSpec field the loader reads is hashed by computeHash on both branches; ordering of hashed lists is fixed by sorting; analysis code reaches ambient inputs (env, files, clock) only at frozen call sites; miss-only result fields are restored on hits; the salt comes from the executable. A necessary condition for transparency (an input outside the key gives stale hits), not a proof that results are a function of the key.",
+   ref="§4 C04",
+   note="Call graph is CHA (quick) / VTA (thorough) restricted to packages linked into cmd/staticcheck; std-lib bodies are opaque; assumes the environment is fixed between compared runs as the property states; exemptions are one line per field/call site with a reason.",
+   technique="interprocedural field effect sets over the call graph + value-origin slices of hash writes + who-may-call tables"),
 }
 
 NOT_APPLICABLE = {
